@@ -261,6 +261,27 @@ def _datasets(case):
             k += 1
 
 
+
+def _wcont(w, k=0):
+    """the weights in one of the accepted containers; pandas containers carry NON-default index labels
+    (rows must still pair with the weights by position)"""
+    if w is None:
+        return None
+    w = list(w)
+    n = len(w)
+    if k % 3 == 0 or n == 0:
+        return w
+    import numpy as np, pandas as pd
+    if k % 3 == 1:
+        return np.array(w, dtype=float)
+    perm = [(i * 3 + 1) % n for i in range(n)]
+    if len(set(perm)) != n:
+        perm = list(range(n - 1, -1, -1))
+    if n == 1:
+        perm = [7]
+    return pd.Series([float(x) for x in w], index=perm)
+
+
 def impl(case):
     import fairlearn.metrics as fm
     import sklearn.metrics as skm
@@ -276,7 +297,7 @@ def impl(case):
                 row.append(_res(lambda: f(list(t), list(p), sensitive_features=list(sf), **kw)))
             else:
                 row.append(_res(lambda: f(list(t), list(p), sensitive_features=list(sf),
-                                          sample_weight=None if w is None else list(w), **kw)))
+                                          sample_weight=_wcont(w, k), **kw)))
         out["values"].append(row)
     if case.get("dispatch"):
         d = case["dispatch"]
@@ -285,10 +306,10 @@ def impl(case):
         f = getattr(fm, f"{d['base']}_{d['transform']}")
         kind = d["kind"]
         if kind == 0:
-            th = lambda: f(list(t), list(p), sensitive_features=list(sf), sample_weight=None if w is None else list(w),
+            th = lambda: f(list(t), list(p), sensitive_features=list(sf), sample_weight=_wcont(w, k + 1),
                            method=d["method"])
         elif kind == 1:
-            th = lambda: f(list(t), list(p), method=d["method"], sample_weight=None if w is None else list(w),
+            th = lambda: f(list(t), list(p), method=d["method"], sample_weight=_wcont(w, k + 2),
                            sensitive_features=list(sf))
         elif kind == 2:
             th = lambda: f(list(t), list(p), sensitive_features=list(sf), method=d["method"])
